@@ -180,6 +180,14 @@ class Sub:
 # ------------------------------------------------------------------------------------------
 def _worker(args):
     modname, tier, seed, wid, nw, only = args
+    cov = None
+    if os.environ.get("VERIF_COVERAGE"):  # diagnostic only (tools/anchor_coverage.py): which anchored lines/branches the alphabets reach
+        import coverage
+
+        cov = coverage.Coverage(
+            data_file=os.path.join(os.environ["VERIF_COVERAGE"], f"cov.{modname}.{wid}"), include=[REPO + "/PyMatterSim/*"], branch=True
+        )
+        cov.start()
     bind()
     set_freud_threads()
     scratch = tempfile.mkdtemp(prefix=f"vf_{modname}_{wid}_")
@@ -257,6 +265,9 @@ def _worker(args):
             out[sub.id] = st
         return out
     finally:
+        if cov is not None:
+            cov.stop()
+            cov.save()
         os.chdir("/")
         shutil.rmtree(scratch, ignore_errors=True)
 
